@@ -462,7 +462,49 @@ fn families(quick: bool) -> Vec<LmFamily> {
         offsets: vec![0.0],
         named: false,
     });
+    // one-decimal coefficients (not representable in binary): eliminations leave residues where structural zeros are
+    v.push(LmFamily {
+        name: "T7-decimals-n2m2",
+        n: 2,
+        m: 2,
+        doms: vec![Dom::NonNeg],
+        coefs: vec![-0.3, 0.0, 0.1, 0.2, 0.4],
+        rhss: vec![0.3, 2.0],
+        rels: vec![Rel::Le, Rel::Ge],
+        objs: vec![0.5, 1.0],
+        senses: vec![Sense::Max],
+        offsets: vec![0.0],
+        named: false,
+    });
     if !quick {
+        // coefficients 3 and 6: dividing a pivot row by 3 leaves thirds, so eliminations on rows that are exact
+        // multiples of each other leave rounding residues (+-1e-16) where the exact tableau has zeros
+        v.push(LmFamily {
+            name: "T6-thirds-n2m2",
+            n: 2,
+            m: 2,
+            doms: vec![Dom::NonNeg],
+            coefs: vec![-3.0, -1.0, 0.0, 1.0, 3.0, 6.0],
+            rhss: vec![0.0, 1.0, 5.0],
+            rels: vec![Rel::Le, Rel::Ge, Rel::Eq],
+            objs: vec![-1.0, 1.0, 3.0],
+            senses: vec![Sense::Max],
+            offsets: vec![0.0],
+            named: false,
+        });
+        v.push(LmFamily {
+            name: "T8-decimals-n2m3",
+            n: 2,
+            m: 3,
+            doms: vec![Dom::NonNeg],
+            coefs: vec![-0.3, 0.0, 0.1, 0.4],
+            rhss: vec![0.3, 0.9],
+            rels: vec![Rel::Le, Rel::Ge],
+            objs: vec![0.5, 1.0],
+            senses: vec![Sense::Max, Sense::Min],
+            offsets: vec![0.0],
+            named: false,
+        });
         v.push(LmFamily {
             name: "T2-n3m2",
             n: 3,
